@@ -2,6 +2,7 @@ pub mod c09;
 pub mod c12;
 pub mod c17;
 pub mod c18;
+pub mod c20;
 pub mod datau;
 pub mod pj;
 
@@ -17,6 +18,7 @@ pub fn dispatch(prop: &str, tier: Tier, replay: Option<String>) -> i32 {
         "C12" => c12::run(tier, replay),
         "C17" => c17::run(tier, replay),
         "C18" => c18::run(tier, replay),
+        "C20" => c20::run(tier, replay),
         other => {
             eprintln!("h_proj: unknown property {other}");
             2
